@@ -160,3 +160,28 @@ Definition M_width_roundtrip (def nom w : Z) : Z :=
   let def' := trunc_grid def in
   let nom' := trunc_grid nom in
   M_width_decode def' nom' (M_width_encode def' nom' w).
+
+(* ---------- the FontMatrix omission rule (setFontMatrix / getFontMatrix) ---------- *)
+
+(* matrix entries in units of 10^-6 *)
+Inductive fm_place := FmTopSimple | FmTopCID | FmFontDict.
+
+Definition fm_default (identity : bool) : list Z :=
+  if identity then [1000000; 0; 0; 1000000; 0; 0]%Z else [1000; 0; 0; 1000; 0; 0]%Z.
+
+(* the default the writer compares against (third argument of setFontMatrix):
+   the identity for the Top DICT of a CID-keyed font, [0.001 0 0 0.001 0 0]
+   for the Top DICT of a simple font and for every Font DICT *)
+Definition fm_write_identity (p : fm_place) : bool :=
+  match p with FmTopCID => true | _ => false end.
+
+(* the default the reader substitutes (second argument of getFontMatrix) *)
+Definition fm_read_identity (p : fm_place) : bool :=
+  match p with FmTopCID => true | _ => false end.
+
+(* Some fm: the FontMatrix entry is written; None: it is omitted *)
+Definition M_fm_write (p : fm_place) (fm : list Z) : option (list Z) :=
+  if list_eqbZ fm (fm_default (fm_write_identity p)) then None else Some fm.
+
+Definition M_fm_read (p : fm_place) (o : option (list Z)) : list Z :=
+  match o with Some fm => fm | None => fm_default (fm_read_identity p) end.
